@@ -29,6 +29,17 @@ def lit(s):
     return m
 
 
+def lit_ic(s):
+    """literal matched case-insensitively (Grammar(ignore_case=True))"""
+    n = len(s)
+
+    def m(text, pos, _s=s.lower(), _n=n):
+        return _n if text[pos:pos + _n].lower() == _s else None
+    m.kind = "str"
+    m.text = s
+    return m
+
+
 def regex(pat, flags=0):
     import re
     r = re.compile(pat, flags)
